@@ -22,6 +22,9 @@ func (c *ClusterNode) internalRoute(remoteFn string, args Destinationer, reply a
 	if verifNodes == nil {
 		return c.verifOrigInternalRoute(remoteFn, args, reply)
 	}
+	if verifRemoteScript != nil {
+		return verifRemoteScript.handle(remoteFn, args, reply)
+	}
 	dest := verifNodes[args.Destination()]
 	if dest == nil {
 		return errVerifTransport
